@@ -466,6 +466,7 @@ impl OExec {
     }
 
     pub fn line(&mut self, line: &str, o: &mut Out) -> String {
+        tick_gen(line);
         let armed = self.f.crash_at.is_some();
         let a = self.line_inner(line, o);
         if armed {
